@@ -21,7 +21,7 @@ import gen_c07 as G
 from common import canon
 
 PROP = "C07"
-RULE = ("merge_coolers: regression corpus (D16 all-empty / leading empty rows with mergebuf=1, D10 int32 limit, int64 limit); every ordered pair of "
+RULE = ("merge_coolers: regression corpus (D16 all-empty / leading empty rows with mergebuf=1, D10 int32 limit, int64 per-pixel limit = finding D19, int64 total limit = finding D28); every ordered pair of "
         "pixel tables over a 3-bin axis drawn from all subsets of 4 keys (quick: seeded sample) x mergebuf 1..2; seeded random families "
         "(empty / disjoint / identical / overlapping / leading-empty-rows supports, k=1..5 inputs, 4 bin tables incl. variable and 2-chromosome, "
         "both storage modes, columns count / count+x, agg sum/max/min, dtype overrides, mergebuf sampled from 1..nnz+1 always incl. 1 and nnz+1); "
@@ -36,7 +36,8 @@ ASSUMPTIONS = ["value columns are signed integers (int8/16/32/64); float columns
 RESIDUE = ["float value columns (order-dependent sums) are not covered",
            "unsigned value dtypes and user-supplied aggregation callables other than sum/max/min are not modelled"]
 
-SIG_I64 = "int64-aggregate-wraps"
+SIG_I64 = "int64-aggregate-wraps"     # D19: some exact per-pixel aggregate outside int64
+SIG_TOT = "int64-total-wraps"         # D28: every per-pixel sum fits, the exact sum of all stored counts does not
 I64 = (-2 ** 63, 2 ** 63 - 1)
 
 
@@ -194,7 +195,7 @@ def oracle(case):
     cols_req = case["columns"] if case.get("columns") is not None else ["count"]
     agg = {c: "sum" for c in cols_req}
     agg.update(case.get("agg") or {})
-    flags = {"i64": False}
+    flags = {"i64": False, "tot64": False}
 
     def leaf(inp):
         names = [c for c, _ in inp["cols"]]
@@ -229,12 +230,19 @@ def oracle(case):
                     return "refuse"
                 o[c] = v
             out[key] = o
+        if "count" in cols_req and not flags["i64"]:
+            # "its recorded total is the sum of the input totals": a total that cannot be recorded must be an error
+            tot = sum(o["count"] for o in out.values())
+            if not (I64[0] <= tot <= I64[1]):
+                flags["tot64"] = True
+                return "refuse"
         return {"ax": k0["ax"], "symm": k0["symm"], "bits": bits, "tab": out}
 
     tree = case.get("tree") or list(case.get("order") or range(len(case["inputs"])))
     r = node(tree)
+    sig = SIG_I64 if flags["i64"] else (SIG_TOT if flags["tot64"] else None)
     if r == "refuse":
-        return "refuse", flags["i64"]
+        return "refuse", sig
     keys = sorted(r["tab"])
     n = G.nbins(r["ax"])
     px = [[i, j, [r["tab"][(i, j)][c] for c in cols_req]] for (i, j) in keys]
@@ -259,7 +267,7 @@ def oracle(case):
             exp["sum"] = sum(p[2][cols_req.index("count")] for p in px)
     else:
         exp["sum"] = 0
-    return exp, flags["i64"]
+    return exp, sig
 
 
 def verdict(ctx, case, got, exp, i64):
@@ -269,7 +277,7 @@ def verdict(ctx, case, got, exp, i64):
         return False
     if exp == "refuse":
         if isinstance(got, dict):
-            ctx.fail(case, {"expected": "refusal (error)", "got": got}, SIG_I64 if i64 else None)
+            ctx.fail(case, {"expected": "refusal (error)", "got": got}, i64)
             return False
         if got == "timeout":
             ctx.fail(case, {"expected": "refusal (error)", "got": got}, None)
@@ -332,6 +340,12 @@ def corpus_cases():
     h = inp("A4", True, c64, [(0, 1, [2 ** 62]), (1, 2, [5])])
     h2 = inp("A4", True, c64, [(0, 1, [2 ** 62]), (2, 2, [7])])
     cs.append(("finding:int64", mk([h, h2], 10)))
+    # known finding D28: no pixel in common, every input total fits, the merged TOTAL leaves int64
+    t1 = inp("A4", True, c64, [(0, 1, [2 ** 62])])
+    t2 = inp("A4", True, c64, [(1, 2, [2 ** 62]), (2, 2, [5])])
+    cs.append(("finding:int64-total", mk([t1, t2], 10)))
+    cs.append(("finding:int64-total", mk([t1, t2], 1)))
+    cs.append(("limits", mk([t1, inp("A4", True, c64, [(1, 2, [2 ** 62 - 1])])], 1)))                 # total exactly 2^63-1: fits
     cs.append(("limits", mk([inp("A4", True, c64, [(0, 1, [2 ** 62])]), inp("A4", True, c64, [(0, 1, [2 ** 62 - 1])])], 10)))
     cs.append(("limits", mk([h, inp("A4", True, c64, [(0, 1, [-2 ** 62])])], 10)))
     return cs
